@@ -785,8 +785,42 @@ pub fn json_diagram_sized(d: &mut Decider, large: bool) -> GSpec {
     while let Some(v) = g.verts.iter().position(|v| v.0 == 255) {
         g = g.without_vertex(v);
     }
+    // the order of the input / output lists is independent of the vertex numbering
+    if d.coin("j.ioshuffle", 1, 2) {
+        let pi = d.permutation("j.iperm", g.inputs.len());
+        g.inputs = pi.iter().map(|&i| g.inputs[i]).collect();
+        let po = d.permutation("j.operm", g.outputs.len());
+        g.outputs = po.iter().map(|&i| g.outputs[i]).collect();
+    }
     // coordinates (large diagrams always get unique ones: the isomorphism search needs anchors)
-    match if large { 5 } else { d.choose("j.coord", 8) } {
+    match if large { 5 } else { d.choose("j.coord", 10) } {
+        8 | 9 => {
+            // extreme but finite values: beyond i64, beyond 2^53, huge, tiny, subnormal, -0.0
+            let xs: [f64; 18] = [
+                1e19,
+                -1e19,
+                9.223372036854775807e18,
+                -9.223372036854775808e18,
+                9007199254740994.0,
+                1e300,
+                -1e300,
+                1.7976931348623157e308,
+                5e-324,
+                2.2250738585072014e-308,
+                0.30000000000000004,
+                1e15 + 0.5,
+                -0.0,
+                123456789.125,
+                4294967296.0,
+                1e-7,
+                18446744073709551616.0,
+                -3.5e38,
+            ];
+            for (i, v) in g.verts.iter_mut().enumerate() {
+                v.3 = if d.coin("j.xq", 1, 2) { *d.pick("j.xqv", &xs) } else { i as f64 };
+                v.4 = if d.coin("j.xr", 1, 2) { *d.pick("j.xrv", &xs) } else { -(i as f64) * 0.5 };
+            }
+        }
         6 => {
             // fine-grained coordinates: thirds, sevenths, six decimals, tiny offsets
             for (i, v) in g.verts.iter_mut().enumerate() {
